@@ -1067,6 +1067,16 @@ def m_res_map_or(dex, fn, body, st, c, args, depth):
             yield s2, args[1], False
 
 
+def m_opt_transpose(dex, fn, body, st, c, args, depth):
+    """Option<Result<T, E>> -> Result<Option<T>, E>"""
+    for n, s2, payload in variant_fork(dex, st, args[0], *OPT):
+        if n == "None":
+            yield s2, ok(NONE), False
+            continue
+        for rn, s3, inner in variant_fork(dex, s2, payload, *RES):
+            yield s3, (ok(some(inner)) if rn == "Ok" else err(inner)), False
+
+
 def m_opt_unwrap_or(dex, fn, body, st, c, args, depth):
     for n, s2, payload in variant_fork(dex, st, args[0], *OPT):
         yield s2, (payload if n == "Some" else args[1]), False
@@ -1336,6 +1346,10 @@ DEFAULT_MODELS = {
 }
 
 TRAIT_MODELS = {
+    # adaptors that an iterator type may override (Rev, Chain, ..) keep the trait's semantics
+    ("core::iter::traits::iterator::Iterator", "find"): m_find,
+    ("core::iter::traits::iterator::Iterator", "try_for_each"): m_try_for_each,
+    ("core::iter::traits::iterator::Iterator", "for_each"): m_for_each,
     ("core::cmp::PartialEq", "eq"): m_eq,
     ("core::cmp::PartialEq", "ne"): m_ne,
     ("core::cmp::PartialOrd", "lt"): m_cmp("lt"),
@@ -1375,6 +1389,7 @@ SUFFIX_MODELS = [
     ("iter::traits::iterator::Iterator::try_for_each", m_try_for_each),
     ("iter::traits::iterator::Iterator::for_each", m_for_each),
     ("iter::traits::iterator::Iterator::find", m_find),
+    ("option::Option::<core::result::Result<T, E>>::transpose", m_opt_transpose),
     ("option::Option::<T>::map_or", m_opt_map_or),
     ("option::Option::<T>::map_or_else", m_opt_map_or_else),
     ("result::Result::<T, E>::map_or", m_res_map_or),
